@@ -170,4 +170,16 @@ META = {
         "faults: relabel (hash order drives pair visiting and rule firing order), option_swarm, worker_batching / worker_reorder / worker_isolation (parallel variant)",
         ["non_cpdag_pdag_extended"],
     ),
+    "C04": _m(
+        "one evaluation = one simulated run: a universe of 5 labelled variables (cardinality 1..3; int / str / tuple labels; default / str / int / mixed / tuple state "
+        "names), a pool of 4 live factors with PRNG-chosen scopes and axis orders (zeros at a PRNG-chosen rate), numpy or torch backend, then a history of 4..14 "
+        "(40 thorough) operations: product / sum / divide (method or operator, in-place or out-of-place), marginalize / maximize (incl. emptying the scope), reduce by "
+        "state name, normalize, scalar * and +, copy, factor_product / factor_divide / factor_sum_product, == against an axis- and state-permuted twin, a twin "
+        "perturbed beyond tolerance and a twin with another state name, and refused operations (divide by a non-sub-scope, marginalize / reduce an absent variable).  "
+        "After EVERY step every pool member is compared with its reference twin (sorted scope + array, textbook pointwise definitions, 0/0 -> 0, x/0 -> inf) by named "
+        "assignment, plus cardinality vs value-shape vs state-name consistency.  Non-trivial = at least one checked step.",
+        "faults: reject_op (refused operations inside the history), backend_config (torch), relabel (hash order decides the scope order of product and sum "
+        "results).  No environment fault applies to in-memory algebra.",
+        ["scope_emptied"],
+    ),
 }
